@@ -241,6 +241,18 @@ impl Inst {
         Ok((v, l, a))
     }
 
+    /// first layer >= `from` at which base state `a` is impacted by the layer's variable (n if none)
+    pub fn first_relevant(&self, from: usize, a: usize) -> usize { let mut l = from; while l < self.t.n && self.t.irrelevant[l][a] { l += 1; } l }
+    /// Necessary condition of known finding D5 for the sub-problem (layer, base): its children are NOT all expanded at the same
+    /// layer (some child lingers in the pool while another one is already expanded), so that a lingering direct child of the root
+    /// can be merged with / reached from deeper nodes. When this does not hold, a root handed back by its own cut-set is NOT D5.
+    pub fn d5_precondition(&self, layer: usize, a: usize) -> bool {
+        let l = self.first_relevant(layer, a);
+        if l >= self.t.n { return false; }
+        let mut firsts: Vec<usize> = (0..self.t.d).filter_map(|d| self.t.next[l][a][d]).map(|c| self.first_relevant(l + 1, c as usize)).collect();
+        firsts.sort_unstable(); firsts.dedup();
+        firsts.len() >= 2
+    }
     /// all exact sub-problems reachable from the root: (layer, base state, value, path), one entry per distinct path
     pub fn enumerate_prefixes(&self, limit: usize) -> Vec<(usize, usize, isize, Vec<Decision>)> {
         let mut out = vec![];
